@@ -10,6 +10,7 @@ package litestream
 
 import (
 	"context"
+	"database/sql"
 	"os"
 
 	"github.com/benbjohnson/litestream/internal/vx"
@@ -106,6 +107,8 @@ func vxContinuityDB(h *vxHistory) (*DB, ltx.TXID) {
 	vx.FSWriteFile(path+"-wal", h.walImage())
 	db := NewDB(path)
 	db.pageSize = vxPageSize
+	// a session holds its long-running read transaction from init on
+	db.rtx = new(sql.Tx)
 	pos := ltx.TXID(2)
 	first := &vxLTX{level: 0, min: 1, max: 1, commit: 3, ts: 1000, pages: []vxPg{{1, 1}, {2, 2}, {3, 3}}}
 	vx.FSWriteFile(db.LTXPath(0, 1, 1), vxEncodeLTXWAL(first, WALHeaderSize, 0, 100, h.gens[0].salt2))
